@@ -15,7 +15,7 @@ PROPERTY = 'C19'
 
 META = {
     'bounds': {'quick': 'request sequences of length <=4, train_step in {-1,1,2,3}, trained/untrained start, with and without predict hook',
-               'thorough': 'length <=6'},
+               'thorough': 'length <=7'},
     'stubs': ['Problem.evaluate -> uninterpreted function + call log',
               'Problem.predict (the hook) -> returns None or a fresh value by symbolic choice, consultations logged',
               'train() of a harness subclass of SurrogateModelPredict records the call and sets `trained` to a symbolic boolean '
@@ -136,7 +136,7 @@ def passthrough(args):
 
 
 def configs(tier):
-    K = 4 if tier == 'quick' else 6
+    K = 4 if tier == 'quick' else 7
     out = [{'name': 'passthrough-k3', 'task': 'passthrough', 'args': {'k': 3}, 'weight': 1}]
     for k in range(1, K + 1):
         for hook in (True, False):
